@@ -210,11 +210,13 @@ def run(ctx):
                "instructions (decided under C40); determineException returns [start, end, [type, addr]...] per try (C08)")
     ctx.note("the partition is decided on a bounded generic model (2-3 symbolic instructions, all leader combinations), not as a behavioural fact on arbitrary methods")
     # positive controls (every run; stand in for fixtures since today's tree yields no finding)
-    canary(ctx, "push arithmetic", bb_cls.lookup("push"), lambda s: check_push(s, repo, folder, bb_cls), ["aug->sub"],
+    canary(ctx, "push arithmetic", bb_cls.lookup("push"), lambda s: check_push(s, repo, folder, bb_cls), ["aug->sub", "add->sub", "del-attr-assign"],
            site_ok=lambda opn, n, par: not _in_special(n, par))
-    canary(ctx, "leader collection", cbb, lambda s: check_partition(s, repo, folder, ma_cls, dn, de, basic, [(0x00, 0x32)]), ["del-call-stmt"],
-           site_ok=lambda opn, n, par: isinstance(n, ast.Expr) and isinstance(n.value, ast.Call) and isinstance(n.value.func, ast.Attribute)
-           and n.value.func.attr in ("extend", "append", "update", "add") and isinstance(n.value.func.value, ast.Name))
+    canary(ctx, "leader collection", cbb, lambda s: check_partition(s, repo, folder, ma_cls, dn, de, basic, [(0x00, 0x32)]), ["del-call-stmt", "negate-if"],
+           site_ok=lambda opn, n, par: opn != "del-call-stmt" or (isinstance(n, ast.Expr) and isinstance(n.value, ast.Call)
+                                                                   and isinstance(n.value.func, ast.Attribute)
+                                                                   and n.value.func.attr in ("extend", "append", "update", "add")
+                                                                   and isinstance(n.value.func.value, ast.Name)))
     canary(ctx, "determineNext domain", dn, lambda s: check_dn_domain(s, repo, folder, dn, ops=[0x00, 0x0E, 0x28, 0x32]), ["ret-empty"])
     ctx.floor("positive_controls", 3)
     if ctx.tier == "thorough":
